@@ -4,7 +4,7 @@ import common as C
 import statelib
 from framework import Unit
 
-PROPS_FILES = ['C02', 'C02ext']
+PROPS_FILES = ['C02', 'C02ext', 'C02dual']
 IMPORTS = 'From Gen Require Import enums core exec.'
 SPEC_IMPORTS = ('From ArmV Require Import Spec.Pseudocode Spec.Arch Spec.MachineView Spec.DPSem Spec.LoadStore Spec.Hub Spec.Memory.')
 SR = {'LSL': 1, 'LSR': 2, 'ASR': 3, 'ROR': 4, 'RRX': 5}
@@ -224,6 +224,62 @@ def literal_cases(rng, tier):
     return out
 
 
+DUALS = ['LdrdImmediate', 'LdrdRegister', 'LdrdLiteral', 'StrdImmediate', 'StrdRegister']
+
+
+def dual_cases(rng, tier):
+    """LDRD / STRD against Spec/LoadStoreUnpriv.v (LDRD, LDRD_lit, STRD) through MemA on flat memory, with and without the
+    Large Physical Address Extension, both endiannesses, aligned and misaligned addresses"""
+    t = statelib.load_index(C.GEN)['tables']
+    out = []
+    per = 30 if tier == 'quick' else 1200
+    for cls in DUALS:
+        for _ in range(per):
+            thumb = rng.random() < 0.4 if 'Register' not in cls else False
+            cfgd, st, secure = mk_state(rng, t, thumb)
+            cfgd['arch_version'] = 7
+            cfgd['have_lpae'] = rng.random() < 0.5
+            st = dict(st)
+            st['cfg'] = dict(st['cfg'], arch_version=7, have_lpae=cfgd['have_lpae'])
+            arch = 7
+            lpae = int(cfgd['have_lpae'])
+            add, index = rng.choice([0, 1]), rng.choice([0, 1])
+            wback = 1 if not index else rng.choice([0, 0, 1])
+            n, m_ = rng.choice([0, 1, 2, 3, 13]), rng.choice([8, 9])
+            tt = rng.choice([4, 6, 10])
+            t2 = tt + 1
+            imm32 = rng.choice([0, 4, 8, 0x10, 0x3FC, 1, 2])
+            base = rng.choice([0x1000, 0x1008, 0x1010, 0x1044, 0x10F8, 0x10FC, 0xFFFFFFF0, 0xFFFFFFF8, 0x1002, 0x0, 0x2000])
+            set_reg(st, t, n, base)
+            set_reg(st, t, m_, rng.choice([0, 4, 8, 0x10, 0xFFFFFFF8]))
+            set_reg(st, t, tt, rng.getrandbits(32))
+            set_reg(st, t, t2, rng.getrandbits(32))
+            cfg = statelib.coq_config(cfgd, t)
+            m = statelib.coq_machine(st)
+            rd = f'(fun a sz s => MemA_get_flat {arch} s a sz)'
+            wr = f'(fun a sz v s => MemA_set_flat {arch} s a sz v)'
+            if cls == 'LdrdImmediate':
+                fields = [0, add, wback, index, imm32, tt, t2, n]
+                spec = f'(LDRD {rd} {lpae} {m} (rget {m} {n}) {imm32} {add} {index} {wback} {n} {tt} {t2})'
+            elif cls == 'LdrdRegister':
+                fields = [0, add, wback, index, m_, tt, t2, n]
+                spec = f'(LDRD {rd} {lpae} {m} (rget {m} {n}) (rget {m} {m_}) {add} {index} {wback} {n} {tt} {t2})'
+            elif cls == 'LdrdLiteral':
+                fields = [0, add, imm32, tt, t2]
+                spec = f'(LDRD_lit {rd} {lpae} {m} {add} {imm32} {tt} {t2})'
+            elif cls == 'StrdImmediate':
+                fields = [0, add, wback, index, imm32, tt, t2, n]
+                spec = f'(STRD {wr} {lpae} {m} (rget {m} {n}) {imm32} {add} {index} {wback} {n} {tt} {t2})'
+            else:
+                fields = [0, add, wback, index, m_, tt, t2, n]
+                spec = f'(STRD {wr} {lpae} {m} (rget {m} {n}) (rget {m} {m_}) {add} {index} {wback} {n} {tt} {t2})'
+            args = ' '.join(str(x) for x in fields)
+            out.append({'impl': {'kind': 'exec', 'state': st, 'module': snake(cls), 'cls': cls, 'fields': fields},
+                        'model': f'(enc_out enc_machine enc_unit ({cls}_execute {cfg} {args} {m}))',
+                        'spec': f'(enc_out enc_machine enc_unit {spec})', 'label': cls, 'nontrivial': True})
+    return out
+
+
 def extra_and_literal_cases(rng, tier):
     return extra_cases(rng, tier) + literal_cases(rng, tier)
 
@@ -237,4 +293,7 @@ def units():
                  ['C02_rd_ok_flat_unpriv', 'C02_wr_ok_flat_unpriv'],
                  ['Proofs/LSProofs2.v', 'Proofs/LSProofs3.v', 'Proofs/LSProofs4.v'],
                  ['opcodes.abstract_opcodes.%s.%s.execute' % (snake(cls), cls) for cls in [c for (c, _, _, _) in EXTRA] + [c for c, _ in LITERALS]],
-                 extra_and_literal_cases, IMPORTS, SPEC_IMPORTS + '\nFrom ArmV Require Import Spec.LoadStoreUnpriv.')]
+                 extra_and_literal_cases, IMPORTS, SPEC_IMPORTS + '\nFrom ArmV Require Import Spec.LoadStoreUnpriv.'),
+            Unit('dual', ['C02_' + c for c in DUALS], ['Proofs/LSProofs5.v'],
+                 ['opcodes.abstract_opcodes.%s.%s.execute' % (snake(c), c) for c in DUALS], dual_cases, IMPORTS,
+                 SPEC_IMPORTS + '\nFrom ArmV Require Import Spec.LoadStoreUnpriv.')]
